@@ -96,3 +96,16 @@ let () =
         | Some l -> String.concat "," (List.map hex0 l) in
       Printf.sprintf "N=%s|C=%s|F=%s" names (String.concat ";" (List.map str_of_path st.st_created)) (listing st.st_fs)
     | _ -> "?args")
+
+(* ---- checkDuplicateNames (C09) ---- *)
+let () =
+  register "nd_check" (function [ents] ->
+      let es = List.map (fun e -> match String.split_on_char ':' e with
+          | [a; r] ->
+            let rel = if r = "!" then [] else List.map bytes_of_hex (String.split_on_char '.' r) in
+            { nd_abs = bytes_of_hex a; nd_rel = rel }
+          | _ -> failwith "nd entry") (split ',' ents) in
+      (match nd_check es with
+       | None -> "ok"
+       | Some p -> "dup:" ^ hex_of_bytes p)
+    | _ -> "?args")
